@@ -51,6 +51,10 @@ impl core::ops::Sub for NaiveDate { type Output = TimeDelta;
     #[verifier::external_body]
     fn sub(self, rhs: NaiveDate) -> (r: TimeDelta) ensures r.days() == self.d() - rhs.d() { unimplemented!() } }
 
+/// day numbers of representable dates form the interval [min_day, max_day]
+pub uninterp spec fn min_day() -> int;
+pub uninterp spec fn max_day() -> int;
+pub broadcast axiom fn ax_range(x: NaiveDate) ensures min_day() <= #[trigger] x.d() <= max_day();
 /// calendar: civil(y, m, dd) is the day number of that date when it exists
 pub uninterp spec fn civil(y: int, m: int, dd: int) -> int;
 pub uninterp spec fn civil_valid(y: int, m: int, dd: int) -> bool;
@@ -89,7 +93,7 @@ impl NaiveDate {
     { unimplemented!() }
     #[verifier::external_body]
     pub fn checked_sub_signed(self, delta: TimeDelta) -> (r: Option<NaiveDate>)
-        ensures match r { Some(x) => x.d() == self.d() - delta.days(), None => true }
+        ensures match r { Some(x) => x.d() == self.d() - delta.days(), None => self.d() - delta.days() < min_day() || self.d() - delta.days() > max_day() }
     { unimplemented!() }
     #[verifier::external_body]
     pub fn to_string(&self) -> String { unimplemented!() }
